@@ -38,7 +38,7 @@ class Group:
         self.defs = [x for x in attrs.get('defs', '').split(';') if x]
         self.stop_allowed = attrs.get('stop') == 'allowed'
         self.solver = attrs.get('solver', os.environ.get('VERIF_SOLVER', 'sat'))
-        self.timeout = int(attrs.get('timeout', '300'))
+        self.timeout = int(attrs.get('timeout', '900'))
         self.bounded = attrs.get('bounded')
         self.family = None
         if 'family' in attrs:
